@@ -3,6 +3,7 @@ package main
 // SSA instruction semantics.
 
 import (
+	"sort"
 	"fmt"
 	"os"
 	"go/constant"
@@ -219,6 +220,11 @@ func (x *Exec) freshVal(prefix string, t types.Type) Val {
 		if isByteSlice(u.Elem()) {
 			x.fail("symbolic [][]byte value")
 		}
+		if _, isStruct := u.Elem().Underlying().(*types.Struct); isStruct {
+			l := o.Fresh(prefix+".len", o.IdxSort())
+			x.assumeLen(l)
+			return SymListVal{Sym: prefix, Len: l, Elem: u.Elem(), elems: map[*Term]*Object{}}
+		}
 		return OpaqueVal{What: "slice " + t.String() + " " + prefix}
 	case *types.Struct:
 		sv := StructVal{T: t, F: make([]Val, u.NumFields())}
@@ -299,6 +305,11 @@ func (x *Exec) freshErr(prefix string) ErrVal {
 	ev.Data["inputLen"] = il
 	ev.Data["digit"] = o.TypedFresh(prefix+".digit", tyByte)
 	ev.Data["origin"] = o.TypedFresh(prefix+".origin", tyInt)
+	if !o.M.BV {
+		ev.Data["msg.arr"] = o.Fresh(prefix+".msg.arr", o.ByteArr())
+		ev.Data["msg.len"] = o.Fresh(prefix+".msg.len", IntSort)
+		o.SetRange(ev.Data["msg.len"], big.NewInt(0), big.NewInt(1<<62))
+	}
 	return ev
 }
 
@@ -504,6 +515,8 @@ func (x *Exec) lenOf(v Val) *Term {
 			return o.Idx(int64(len(s.Elems)))
 		}
 		return o.Idx(int64(s.Hi - s.Lo))
+	case SymListVal:
+		return s.Len
 	case ArrayVal:
 		return o.Idx(s.N)
 	case ListVal:
@@ -870,9 +883,17 @@ func (x *Exec) step(st *State, ins ssa.Instruction) {
 		st.H = o.Store(st.H, reg, o.ConstArray(o.ByteArr(), o.ConstI(tyByte, 0)))
 		st.Regs[t] = SliceVal{Reg: reg, Off: o.Idx(0), Len: ln, Cap: cp, Elem: t.Type().Underlying().(*types.Slice).Elem()}
 	case *ssa.Call:
+		before, _ := st.Ghost["reports"].(*Term)
 		v := x.call(st, t, t.Common())
 		if v != nil {
 			st.Regs[t] = v
+		}
+		if after, _ := st.Ghost["reports"].(*Term); after != nil && x.inlineDepth == 0 {
+			// whether this call reported to a TestingT (for callReported in specifications)
+			if before == nil {
+				before = o.Int(0)
+			}
+			st.Ghost["$rep."+t.Name()] = o.Lt(before, after)
 		}
 	case *ssa.Defer:
 		x.deferCall(st, t)
@@ -950,6 +971,9 @@ func (x *Exec) indexAddr(st *State, t *ssa.IndexAddr) Val {
 		obj.Init = b.Parts[k]
 		obj.ReadOnly = true
 		return PtrVal{Nil: o.False(), Obj: obj}
+	case SymListVal:
+		x.boundsCheck(st, idx, b.Len, "index")
+		return PtrVal{Nil: o.False(), Obj: x.symListElem(b, idx)}
 	case RuneSeqVal:
 		x.boundsCheck(st, idx, b.Len, "index")
 		obj := x.newObject("rune", types.Typ[types.Int32])
@@ -959,6 +983,18 @@ func (x *Exec) indexAddr(st *State, t *ssa.IndexAddr) Val {
 	}
 	x.fail("IndexAddr on %T", x.operand(st, t.X))
 	return nil
+}
+
+// symListElem: the object holding element idx of a symbolic list (one per index term; read-only).
+func (x *Exec) symListElem(b SymListVal, idx *Term) *Object {
+	if obj, ok := b.elems[idx]; ok {
+		return obj
+	}
+	obj := x.newObject(fmt.Sprintf("elem:%s", b.Sym), b.Elem)
+	obj.Init = x.freshVal(fmt.Sprintf("%s.at%d", b.Sym, len(b.elems)), b.Elem)
+	obj.ReadOnly = true
+	b.elems[idx] = obj
+	return obj
 }
 
 func (x *Exec) sliceOp(st *State, t *ssa.Slice) Val {
@@ -1532,4 +1568,23 @@ func (x *Exec) typeAssert(st *State, t *ssa.TypeAssert) Val {
 
 func (x *Exec) note(f string, a ...any) {
 	x.notes = append(x.notes, fmt.Sprintf(f, a...))
+}
+
+// errSame: two error values agree in every modelled component (nil-ness, errors.Is / errors.As answers, payload).
+func (x *Exec) errSame(av, bv ErrVal) *Term {
+	o := x.o
+	cs := []*Term{o.Eq(av.Nil, bv.Nil)}
+	for _, pair := range []struct{ m1, m2 map[string]*Term }{{av.Is, bv.Is}, {av.As, bv.As}, {av.Data, bv.Data}} {
+		keys := make([]string, 0, len(pair.m1))
+		for k := range pair.m1 {
+			keys = append(keys, k)
+		}
+		sort.Strings(keys)
+		for _, k := range keys {
+			if w, ok := pair.m2[k]; ok {
+				cs = append(cs, o.Eq(pair.m1[k], w))
+			}
+		}
+	}
+	return o.And(cs...)
 }
